@@ -68,6 +68,23 @@ fn main() {
                     db = Some(Database::open(&path, cfg).unwrap());
                     println!("  reopened");
                 }
+                "waldump" => {
+                    let d2 = dir.join("wd");
+                    let _ = std::fs::remove_dir_all(&d2);
+                    std::fs::create_dir_all(&d2).unwrap();
+                    std::fs::copy(dir.join("axmos.log"), d2.join("axmos.log")).unwrap();
+                    match axmosdb::verif::wal::Wal::open(d2.join("axmos.log")) {
+                        Ok(mut w) => match w.read_all(4) {
+                            Ok(recs) => {
+                                for r in recs {
+                                    println!("  lsn={} tid={} kind={:#x} prev={:?} oid={:?} row={:?} undo={}B redo={}B", r.lsn, r.tid, r.kind, r.prev_lsn, r.object_id, r.row_id, r.undo.len(), r.redo.len());
+                                }
+                            }
+                            Err(e) => println!("  read error {e}"),
+                        },
+                        Err(e) => println!("  open error {e}"),
+                    }
+                }
                 "crashcopy" => {
                     let d2 = dir.join("crash");
                     let _ = std::fs::remove_dir_all(&d2);
